@@ -514,6 +514,17 @@ def explore(ctx, name, tier):
     else:
         answers, counts, windows = solo_profile(g, ops_spec, initial)
         answers2, counts2, _ = solo_profile(g, ops_spec, initial)
+    for _again in range(3):
+        if answers == answers2 and counts == counts2:
+            break
+        # (state that legitimately builds up over the first runs -- memos, lazily filled tables -- changes the number of
+        # steps without changing an answer: profile again until two consecutive runs agree)
+        ctx.count('C17.solo_profiles_repeated')
+        answers, counts, windows = answers2, counts2, _
+        if fresh:
+            answers2, counts2, _ = solo_profile_fresh(name, ops_spec)
+        else:
+            answers2, counts2, _ = solo_profile(g, ops_spec, initial)
     if answers != answers2 or counts != counts2:
         ctx.count('C17.unstable_scenarios')
         ctx.inconclusive.append('scenario %s is not deterministic when run alone' % name)
